@@ -103,6 +103,15 @@ func (v *VM[I, O, A]) reprocessFromOutputToInput(ctx context.Context, targetInpu
 		return nil, fmt.Errorf("invalid initial accepted state (Input = %s, Output = %s, Accepted = %s)", targetInputBlock, outputBlock, acceptedBlock)
 	}
 
+	// The node may have stopped after committing the last output block and before notifying the
+	// accepted subscribers. If it is the last accepted block, it is notified on startup. Otherwise,
+	// notify it here, since accepted blocks are delivered at least once and in order.
+	if targetInputBlock.GetHeight() > outputBlock.GetHeight() {
+		if err := event.NotifyAll[A](ctx, acceptedBlock, v.acceptedSubs...); err != nil {
+			return nil, fmt.Errorf("failed to notify accepted subs during re-processing: %w", err)
+		}
+	}
+
 	// Re-process from the last output block, to the last accepted input block
 	for targetInputBlock.GetHeight() > outputBlock.GetHeight() {
 		reprocessInputBlock, err := v.inputChainIndex.GetBlockByHeight(ctx, outputBlock.GetHeight()+1)
